@@ -41,7 +41,7 @@ Fixpoint assoc {B : Type} (k : string) (l : list (string * B)) : option B :=
 
 (** tables are keyed by the hex of the source text; messages stay hex *)
 Definition tabW (pt : list (string * option string))            (* parse: None = ok, Some m = error *)
-                (dt : list string)                               (* context stage: [] = ok, else its errors *)
+                (dt : list (string * list string))               (* files whose own context fails, with their errors *)
                 (ct : list (string * list string))               (* check errors per file ([] = ok) *)
                 (cfail : list string)                            (* files whose check failed *)
                 (gt : list (string * res string string))         (* generated python (hex) or error *)
@@ -56,8 +56,7 @@ Definition tabW (pt : list (string * option string))            (* parse: None =
                          | Some (Some m) => Err m
                          | None => Err "6d697373696e67"
                          end;
-     (* the context stage fails as a whole: the first file is made to carry the failure *)
-     w_decls_of := fun a => match dt with [] => Ok no_decls | _ => Err dt end;
+     w_decls_of := fun a => match assoc a dt with Some ms => Err ms | None => Ok no_decls end;
      w_check := fun _ a => if existsb (String.eqb a) cfail
                            then Err (match assoc a ct with Some ms => ms | None => [] end)
                            else Ok a;
